@@ -10,9 +10,9 @@ Proof. intros. unfold bind, lift. destruct o; reflexivity. Qed.
 
 (* ---- pure readers of the parameter tree ---- *)
 Definition r_int0 (site : nat) (gs : list group) (g n : bstr) : outcome Z :=
-  obind (lookup gs g n) (fun p => obind (values_as_int p) (fun v => idx_ site v 0)).
+  obind (lookup gs g n) (fun p => obind (values_as_int p) (fun v => at_ v 0)).
 Definition r_float0 (site : nat) (gs : list group) (g n : bstr) : outcome f32 :=
-  obind (lookup gs g n) (fun p => obind (values_as_float p) (fun v => idx_ site v 0)).
+  obind (lookup gs g n) (fun p => obind (values_as_float p) (fun v => at_ v 0)).
 Definition r_strs (gs : list group) (g n : bstr) : outcome (list bstr) :=
   obind (lookup gs g n) values_as_string.
 
